@@ -19,9 +19,24 @@ ASSUMPTIONS = [
 ]
 
 
+def _scanner_name():
+    """name of the reader's header scanner: the method that takes the block size (found by its
+    signature, so that renaming it does not matter)"""
+    try:
+        import introspect
+        from pydiffx.reader import DiffXReader
+        found = introspect.block_size_method(DiffXReader)
+        return (found[0], found[2]) if found else ('_read_until', 96)
+    except Exception:   # noqa
+        return ('_read_until', 96)
+
+
+SCANNER, BLOCK = _scanner_name()
+
+
 class Tracking(io.BytesIO):
     """records content reads that obtained fewer bytes than asked for.  A content read is a
-    `read(n)` not issued by the header scanner `_read_until` (told apart by the calling
+    `read(n)` not issued by the header scanner (the method taking the block size; told apart by the calling
     frame; when no frame of that name is ever seen — the code was reorganised — by the
     block size, which misses contents whose declared length equals the block size)"""
 
@@ -36,15 +51,16 @@ class Tracking(io.BytesIO):
         at = self.tell()
         r = io.BytesIO.read(self, n)
         caller = sys._getframe(1).f_code.co_name
+        scanner = caller == SCANNER
         if n is not None and n >= 0:
-            self.reads.append((at, n, caller == '_read_until'))
-        if caller == '_read_until':
+            self.reads.append((at, n, scanner))
+        if scanner:
             self.saw_scanner = True
         if n is not None and n >= 0 and len(r) < n:
-            if caller != '_read_until':
-                self.by_frame.append((n, len(r)))
-            if n != 96:
-                self.by_size.append((n, len(r)))
+            if not scanner:
+                self.by_frame.append((n, len(r), bytes(r)))
+            if n != BLOCK:
+                self.by_size.append((n, len(r), bytes(r)))
         return r
 
     @property
@@ -55,7 +71,7 @@ class Tracking(io.BytesIO):
         """(offset, n) of every content read"""
         if self.saw_scanner:
             return [(a, n) for a, n, scan in self.reads if not scan]
-        return [(a, n) for a, n, scan in self.reads if n != 96]
+        return [(a, n) for a, n, scan in self.reads if n != BLOCK]
 
 
 HEADER = re.compile(rb'^#(\.{0,3})(diffx|change|file|preamble|meta|diff):(?: (.*))?$')
@@ -87,14 +103,46 @@ def frame(data):
     return spans, pos == len(data)
 
 
+def ends_at_line_boundary(obtained, sec_opts, scope):
+    """does a short read end with the newline of its section?  (known finding D12 is exactly
+    this case: the reader accepts the shortened content because it ends in its newline)"""
+    import specdoc
+    own = sec_opts.get('encoding')
+    inherited = next((e for e in reversed(scope) if e), None)
+    le = sec_opts.get('line_endings')
+    enc = own or inherited
+    enc = enc if isinstance(enc, str) else None
+    try:
+        # declared kind, else the kind the first line of what was obtained shows
+        dos = (le == 'dos') if le in ('dos', 'unix') else specdoc.detect_dos_bytes(obtained, enc)
+        nl = specdoc.nl0(enc, dos)
+    except Exception:   # noqa
+        return False
+    return bool(nl) and obtained.endswith(nl)
+
+
 def read_tracked(data, stream=None):
     from pydiffx.reader import DiffXReader
     s = stream if stream is not None else Tracking(data)
     recs = []
     err = None
+    scope = []
+    seen = 0
     try:
         for r in DiffXReader(s):
-            recs.append((adapters.show_record(r), bool(s.short)))
+            d12_like = False
+            name = r['section'].lstrip('.')
+            if name in ('diffx', 'change', 'file'):
+                del scope[r['level']:]
+                scope.append(r['options'].get('encoding'))
+            shorts = s.short
+            if len(shorts) > seen:
+                n, got, obtained = shorts[-1]
+                seen = len(shorts)
+                # D12: a short content read that obtained something ending in the section's newline
+                # (a diff inherits nothing)
+                d12_like = got > 0 and ends_at_line_boundary(obtained, r['options'], [] if name == 'diff' else scope)
+            recs.append((adapters.show_record(r), d12_like))
     except Exception as e:   # noqa
         err = e
     return recs, err
